@@ -10,7 +10,7 @@ Section WalkOps.
 Context {D : Type}.
 Variable tb : optable.
 
-Definition okop (o : fop) : Prop := fcomm o = comm_of tb (fidx o).
+Definition okop (o : fop) : Prop := fcomm o = comm_of tb (fidx o) /\ is_bin tb (fidx o) = true.
 
 Lemma okop_update pos us : forall rops, (forall o, In o rops -> okop o) -> forall o, In o (update_nth pos (add_un us) rops) -> okop o.
 Proof.
@@ -44,20 +44,69 @@ Proof.
     + destruct (is_operator_binary tb k (hd_error rp)) as [b| |]; try discriminate. destruct b.
       * destruct (obin (op_of tb k)) as [bs|] eqn:Eb; [|discriminate].
         match type of H with walk _ _ _ _ _ _ ?r _ _ = _ => assert (Hok' : forall o, In o r -> okop o) end.
-        { intros o [<-|Hin]; [|apply Hok; exact Hin]. unfold okop, comm_of. cbn [fcomm fidx]. unfold op_of in Eb. rewrite Eb. reflexivity. }
+        { intros o [<-|Hin]; [|apply Hok; exact Hin]. unfold okop, comm_of, is_bin. cbn [fcomm fidx]. unfold op_of in Eb. rewrite Eb. split; reflexivity. }
         exact (IH _ _ _ _ _ _ _ _ _ Hok' H).
       * destruct rest' as [|t' rest'']; [discriminate|].
         destruct t'; try discriminate; exact (IH _ _ _ _ _ _ _ _ _ Hok H).
     + destruct (var_index vars x) as [vi| |]; try discriminate. destruct (create_node tb rp (FVar vi)); try discriminate. exact (IH _ _ _ _ _ _ _ _ _ Hok H).
 Qed.
 
+(* every variable node the parser emits indexes into the variable list it was given *)
+Definition oknode (vars : list str) (n : fnode D) : Prop := forall i, nkind n = FVar i -> i < length vars.
+Lemma create_node_kind rp kind (n : fnode D) : create_node tb rp kind = Ok n -> nkind n = kind.
+Proof.
+  unfold create_node. destruct rp as [|t rp']; [intros H; inversion H; reflexivity|].
+  destruct t; try (intros H; inversion H; reflexivity).
+  destruct (is_operator_binary tb k (hd_error rp')) as [b| |]; try discriminate. cbn [bind]. destruct b; [intros H; inversion H; reflexivity|].
+  destruct (subsequent_unaries tb (TOp k :: rp') []) as [us| |]; try discriminate. cbn [bind]. intros H; inversion H; reflexivity.
+Qed.
+Lemma walk_nodes_ok : forall fuel rp rest vars (rnodes : list (fnode D)) rops depth ustack nodes ops,
+  (forall n, In n rnodes -> oknode vars n) ->
+  walk tb fuel rp rest vars rnodes rops depth ustack = Ok (nodes, ops) ->
+  forall n, In n nodes -> oknode vars n.
+Proof.
+  induction fuel as [|fuel IH]; intros rp rest vars rnodes rops depth ustack nodes ops Hok H; [discriminate|].
+  cbn [walk] in H. destruct rest as [|t rest'].
+  - inversion H; subst. intros n Hn. apply Hok. apply in_rev. exact Hn.
+  - unfold bind in H.
+    destruct t as [d| | |k|x].
+    + destruct (create_node tb rp (FNum d)) as [m| |] eqn:Ec; try discriminate.
+      match type of H with walk _ _ _ _ _ ?rn _ _ _ = _ => assert (Hok' : forall n, In n rn -> oknode vars n) end.
+      { intros n [<-|Hin]; [|apply Hok; exact Hin]. intros i Hk. rewrite (create_node_kind _ _ _ Ec) in Hk. discriminate. }
+      exact (IH _ _ _ _ _ _ _ _ _ Hok' H).
+    + exact (IH _ _ _ _ _ _ _ _ _ Hok H).
+    + destruct (lowest_trailing rops depth 0 None) as [pos|].
+      * destruct (match ustack with (urp, d) :: tl => if (d =? depth - 1)%Z then Some (urp, tl) else None | [] => None end) as [[urp tl]|].
+        -- destruct (subsequent_unaries tb urp []) as [us| |]; try discriminate. exact (IH _ _ _ _ _ _ _ _ _ Hok H).
+        -- exact (IH _ _ _ _ _ _ _ _ _ Hok H).
+      * destruct rnodes as [|n ntl]; [discriminate|].
+        destruct (match ustack with (urp, d) :: tl => if (d =? depth - 1)%Z then Some (urp, tl) else None | [] => None end) as [[urp tl]|].
+        -- destruct (subsequent_unaries tb urp []) as [us| |]; try discriminate.
+           match type of H with walk _ _ _ _ _ ?rn _ _ _ = _ => assert (Hok' : forall m, In m rn -> oknode vars m) end.
+           { intros m [<-|Hin]; [|apply Hok; right; exact Hin]. intros i Hk. cbn in Hk. exact (Hok n (or_introl eq_refl) i Hk). }
+           exact (IH _ _ _ _ _ _ _ _ _ Hok' H).
+        -- exact (IH _ _ _ _ _ _ _ _ _ Hok H).
+    + destruct (is_operator_binary tb k (hd_error rp)) as [b| |]; try discriminate. destruct b.
+      * destruct (obin (op_of tb k)) as [bs|]; [|discriminate]. exact (IH _ _ _ _ _ _ _ _ _ Hok H).
+      * destruct rest' as [|t' rest'']; [discriminate|].
+        destruct t'; try discriminate; exact (IH _ _ _ _ _ _ _ _ _ Hok H).
+    + destruct (var_index vars x) as [vi| |] eqn:Ev; try discriminate. destruct (create_node tb rp (FVar vi)) as [m| |] eqn:Ec; try discriminate.
+      match type of H with walk _ _ _ _ _ ?rn _ _ _ = _ => assert (Hok' : forall n, In n rn -> oknode vars n) end.
+      { intros n [<-|Hin]; [|apply Hok; exact Hin]. intros i Hk. rewrite (create_node_kind _ _ _ Ec) in Hk. inversion Hk; subst i.
+        unfold var_index in Ev. destruct (index_of x vars 0) as [j|] eqn:Ei; [|discriminate]. inversion Ev; subst vi.
+        clear - Ei. assert (G : forall l k q, index_of x l k = Some q -> q < k + length l).
+        { induction l as [|y l IHl]; intros k q H; [discriminate|]. cbn in H. destruct (str_eqb x y); [inversion H; subst; cbn; lia|]. specialize (IHl _ _ H). cbn. lia. }
+        exact (G vars 0 j Ei). }
+      exact (IH _ _ _ _ _ _ _ _ _ Hok' H).
+Qed.
 Lemma make_expression_shape fb text ts vars (fx : flatex D) : make_expression tb fb text ts vars = Ok fx ->
   length (fnodes fx) = S (length (fops fx)) /\ fprios fx = prioritized_indices_flat fb (fops fx) (fnodes fx) /\
-  fvars fx = vars /\ ftext fx = text /\ (forall o, In o (fops fx) -> okop o).
+  fvars fx = vars /\ ftext fx = text /\ (forall o, In o (fops fx) -> okop o) /\ (forall n, In n (fnodes fx) -> oknode vars n).
 Proof.
   unfold make_expression. destruct (walk tb (S (length ts)) [] ts vars [] [] 0 []) as [[nodes ops]| |] eqn:Ew; try discriminate.
   cbn [bind]. destruct (Nat.eqb_spec (S (length ops)) (length nodes)) as [E|]; [|discriminate].
-  intros H. inversion H; subst. cbn. repeat split; try reflexivity; [lia|].
-  apply (walk_ops_ok _ _ _ _ _ _ _ _ _ _ (fun o (Ho : In o []) => match Ho with end) Ew).
+  intros H. inversion H; subst. cbn. split; [lia|]. split; [reflexivity|]. split; [reflexivity|]. split; [reflexivity|]. split.
+  - apply (walk_ops_ok _ _ _ _ _ _ _ _ _ _ (fun o (Ho : In o []) => match Ho with end) Ew).
+  - apply (walk_nodes_ok _ _ _ _ _ _ _ _ _ _ (fun n (Hn : In n []) => match Hn with end) Ew).
 Qed.
 End WalkOps.
